@@ -220,7 +220,7 @@ stepA InvA.s_cCnt .cCnt =>
 theorem iterAdvance_LocA {scripts : List (List Op)} {s s' : St} {i : Nat} {p p0 : Proc}
     (hL : LocA scripts s i p) (hin : p.inIter = true) (hpc : p.pc = .gRelErr ∨ p.pc = .gReadline)
     (e1 : p0.script = p.script) (e2 : p0.results = p.results) (e3 : p0.ident = p.ident) (e4 : p0.wOpen = p.wOpen)
-    (e5 : p0.depth = 1) (e6 : p0.inIter = true) (hl : s'.lock = some i) (hpaths : s'.paths = s.paths) :
+    (e5 : p0.depth = 1) (_e6 : p0.inIter = true) (hl : s'.lock = some i) (hpaths : s'.paths = s.paths) :
     LocA scripts s' i (iterAdvance p0) := by
   obtain ⟨h1, h2, h3, h4, h5, h6, h7, h8, h9, h10, h11, h12, h13⟩ := hL
   unfold iterAdvance
